@@ -271,6 +271,17 @@ func executeNotify(sc Scenario) (out nOutcome) {
 			// the client never left the connection announced last time: nothing new to announce on
 			break
 		}
+		// one-way calls return before their bytes are on the wire: the server restarts only after it has
+		// read everything issued so far (a request in flight during the restart is another story)
+		for i := 0; i < 400; i++ {
+			srv.mu.Lock()
+			n := len(srv.arrivals)
+			srv.mu.Unlock()
+			if n >= seq {
+				break
+			}
+			time.Sleep(5 * time.Millisecond)
+		}
 		extra := -1
 		if sc.ExtraPush && r == 0 {
 			extra = 7
